@@ -207,7 +207,7 @@ impl Executor {
     }
 }
 pub mod simulation {
-    pub(crate) use super::add_model;
+    pub(crate) use super::*;
 }
 
 // ------------------------------------------------------------------ the real text (cut from /repo on every run)
